@@ -150,3 +150,20 @@ Proof.
     destruct (lock s); try discriminate; destruct (pget p (prods s)); try discriminate;
     (destruct (sz >? cap c) eqn:E; [|lia]); simpl; intros H; inversion H; auto.
 Qed.
+
+(* every accepted request HAS BEEN handed over and finished once the queue's own activity has come to rest with the
+   mutex free (i.e. outside the F3 deadlock) *)
+Lemma accepted_handed_and_finished_at_quiescence_l c s :
+  0 <= cap c -> reachable c s -> quiescent c s -> lock s = Free ->
+  hand s = acc s /\ items s = [] /\ inflight s = [] /\ size s = 0 /\
+  (forall id, In id (acc s) -> In id (map fst (fin s))) /\ all_returned s.
+Proof.
+  intros Hc R Q L.
+  destruct (quiescent_facts _ _ Q L) as (Q1 & Q2 & _).
+  pose proof (handoff_complete_l _ _ Hc R Q1) as HA.
+  destruct (pq_size_bounds_l _ _ Hc R) as (_ & _ & Z0).
+  destruct (handoff_exactly_once_l _ _ Hc R) as (_ & _ & _ & _ & _ & _ & _ & _ & HF & _).
+  split; [exact HA|]. split; [exact Q1|]. split; [exact Q2|]. split; [auto|]. split.
+  - intros id I. rewrite <- HA in I. destruct (HF _ I) as [X|X]; [exact X|]. rewrite Q2 in X. contradiction.
+  - apply (no_lost_wakeup_partial_l _ _ Hc R Q L).
+Qed.
